@@ -376,9 +376,22 @@ class C14(Check):
         kinds = [f for f, w in cfg["fault_weights"].items() for _ in range(w)]
         if os.environ.get("VERIF_C14_ONLY_FAULT"):      # focused soak of one fault kind (debugging knob, not used by the registered commands)
             kinds = [os.environ["VERIF_C14_ONLY_FAULT"]]
+        self._twin_reeval = None
         for k in ks:
             kind = kinds[int(H(rk, "fault", k) * len(kinds)) % len(kinds)]
             self.one_crash_point(cfg, rk, ctx, st, twin, N, k, kind, final)
+
+    def twin_reeval(self, cfg, rk, ctx, st, final, N):
+        """the uninterrupted reference for histories whose first leg asked for re-evaluation at the end: the object keeps that
+        option, so the continued run re-evaluates from scratch at its end too - and so must the uninterrupted run it is compared
+        with (in extend-split versions 1 / 2 the from-scratch value differs from the incrementally maintained one even without
+        any interruption, and version 2 touches further points while re-evaluating)"""
+        if self._twin_reeval is None:
+            sim = self.make(cfg, rk, ctx)
+            ret = self.run_to(sim, final, reevaluate=True)
+            t = snapshot_of(sim.sa, st, ret)
+            self._twin_reeval = t if [int(x) for x in ret[6]] == N else "diverged"
+        return self._twin_reeval
 
     def one_crash_point(self, cfg, rk, ctx, st, twin, N, k, kind, final):
         sig = {"strategy": st, "fault": kind, "estimator": cfg["estimator"]}
@@ -391,6 +404,11 @@ class C14(Check):
         # a quarter of the first legs ask for the re-evaluation at the end: the stop is then a from-scratch evaluation, and the
         # continuation starts from whatever bookkeeping that leaves behind
         reeval = H(rk, "reeval_first_leg", k) < 0.25
+        if reeval:
+            twin = self.twin_reeval(cfg, rk, ctx, st, final, N)
+            if twin == "diverged":
+                ctx.probe("reevaluating_twin_took_another_path")     # not expected (the re-evaluation happens after the last step): not judged
+                return
         r1 = self.run_to(sim, stop_lim, reevaluate=reeval)
         if reeval:
             sig["first_leg_reevaluated"] = True
@@ -429,8 +447,13 @@ class C14(Check):
             sig.update(automatic=bool(cfg.get("automatic", False)), version=cfg.get("version"))
         elif kind == "two_stage":
             mid = (stop_lim + final) // 2
-            self.run_to(sim, mid, first=False)
+            r_mid = self.run_to(sim, mid, first=False)
             ctx.fault("stop@k")
+            if reeval and model_of(sim.sa.operation) is not None and len(model_of(sim.sa.operation).seen) != int(r_mid[6][-1]):
+                # the object remembers reevaluate_at_end: the intermediate stop re-evaluated from scratch as well and (extend-split
+                # version 2) touched further points - the count the limits are expressed in has moved, as at a first leg
+                ctx.probe("reevaluation_evaluated_further_points")
+                return
         elif kind in ("save_continue", "save_crash_restore", "child_restore"):
             with seams.quiet():
                 sa.save_to_file(path)
@@ -510,12 +533,7 @@ class C14(Check):
         got = snapshot_of(sim.sa, st, ret)
         skip = ()
         if reeval and got["distinct_evals"] != int(ret[6][-1]):
-            # the object remembers reevaluate_at_end, so the continuation re-evaluates at its end too; where that from-scratch
-            # evaluation touches further points (extend-split version 2) the final counts are those of the re-evaluation,
-            # (and the value that of a re-evaluation on further points), not of the refinement history - structure, scheme
-            # and maximum levels are still compared
-            skip = ("npoints", "distinct_evals", "result")
-            ctx.probe("reevaluation_evaluated_further_points")
+            ctx.probe("reevaluation_evaluated_further_points")      # (compared with a twin that re-evaluated at its end as well)
         # density estimation solves linear systems: a continued run re-evaluates on entry with warm caches, the surpluses agree up
         # to the rounding the solves amplify (same bound as the cache-transparency check uses)
         compare(ctx, sig, twin, got, what, skip=skip, rtol=1e-8 if st == "dimension_wise_de" else None)
